@@ -578,7 +578,85 @@ def job_phasefield(cfg):
     return res
 
 
+def job_reused_dict(cfg):
+    """The user passes ONE dict object to every Save_Iter call (extra data of the step): each stored iteration keeps the fields it was saved
+    with - a later save, through the same dict, never reaches an earlier iteration.  Elastic, Thermal and user-defined WeakForms simulations,
+    in memory and on disk."""
+    from EasyFEA import Simulations, Models
+    from EasyFEA.FEM import Field, BiLinearForm, MatrixType
+    from engine import stubs
+
+    res = JobResult(cfg)
+    c = new_context()
+    facade.install()
+    sim, disk = cfg["sim"], cfg.get("disk", False)
+    key = f"{sim}: one dict reused by every Save_Iter" + (" (on disk)" if disk else "")
+    res.functions |= {"_Simu.Save_Iter", "WeakForms.Save_Iter", "Elastic.Save_Iter", "Thermal.Save_Iter", "_Simu.Get_results", "_Simu.Set_Iter"}
+    tmp = tempfile.mkdtemp(prefix="c15r_")
+    q = [c.var(f"q{k}", -1, 1, shadow=Fraction(k + 1, 5) * (-1) ** k) for k in range(3)]
+    res.symbols = 3
+
+    def build():
+        mesh = simlib.small_mesh("tri4")
+        if sim == "weakforms":
+            fld = Field(mesh.groupElem, 1, MatrixType.rigi)
+            s_ = Simulations.WeakForms(mesh, Models.WeakForms(fld, BiLinearForm(lambda u, v: 2.0 * u.grad.dot(v.grad))), verbosity=False)
+            name = "u"
+        elif sim == "thermal":
+            s_ = Simulations.Thermal(mesh, Models.Thermal(k=2.0, c=1.0, thickness=1.0), verbosity=False)
+            name = "thermal"
+        else:
+            s_ = Simulations.Elastic(mesh, Models.Elastic.Isotropic(2, E=200.0, v=0.25, planeStress=True, thickness=0.75), verbosity=False)
+            name = "displacement"
+        if disk:
+            s_.folder = os.path.join(tmp, "run")
+        return s_, name
+
+    def run(amps):
+        s_, name = build()
+        un = s_.Get_unknowns()
+        info = {"comment": "user data of the step"}
+        saved = []
+        for k in range(3):
+            s_.Bc_Init()
+            s_.add_dirichlet(s_.mesh.nodes[:2], [0] * len(un), un)
+            s_.add_neumann(s_.mesh.nodes[2:4], [amps[k]] * len(un), un)
+            s_.Solve()
+            saved.append(np.array(s_._Get_u_n(s_.problemType), dtype=object, copy=True))
+            info["step"] = k
+            s_.Save_Iter(info)
+        stored = [np.asarray(s_.Get_results(i)[name], dtype=object).reshape(-1) for i in range(3)]
+        s_.Set_Iter(0)
+        live0 = np.array(s_._Get_u_n(s_.problemType), dtype=object, copy=True)
+        return saved, stored, live0
+
+    def replay(env):
+        amps = [float(as_sym(x).eval({kk: float(v) for kk, v in {**c.shadow, **(env or {})}.items()})) for x in q]
+        saved, stored, live0 = run(amps)
+        errs = {f"stored iteration {i} vs the state it was saved with": float(np.abs(np.asarray(stored[i], dtype=float) - np.asarray(saved[i], dtype=float)).max()) for i in range(3)}
+        errs["state after Set_Iter(0) vs the state saved as iteration 0"] = float(np.abs(np.asarray(live0, dtype=float) - np.asarray(saved[0], dtype=float)).max())
+        return any(v > 1e-12 for v in errs.values()), errs
+
+    try:
+        with facade.symbolic(), stubs.ideal_linear_solver():
+            saved, stored, live0 = run(q)
+        for i in range(3):
+            ok = all((as_sym(a) - as_sym(b)).n.is_zero() for a, b in zip(stored[i], saved[i])) and len(stored[i]) == len(saved[i])
+            res.record(f"{key}: stored iteration {i} = the state it was saved with", Outcome("held", how="normal-form") if ok else Outcome("cex", env=dict(c.shadow), how="shadow"), replay, key=f"{key}: stored iterations",
+                       sample=None if i else {"obligation": "three solves with symbolic load amplitudes, Save_Iter(info) with the same dict each time: Get_results(i) holds the linear forms of solve i", "config": cfg})
+        ok = all((as_sym(a) - as_sym(b)).n.is_zero() for a, b in zip(live0, saved[0]))
+        res.record(f"{key}: Set_Iter(0) restores the state saved as iteration 0", Outcome("held", how="normal-form") if ok else Outcome("cex", env=dict(c.shadow), how="shadow"), replay, key=f"{key}: restore")
+        res.twin(f"{key} twin", not all((as_sym(a) - as_sym(b)).n.is_zero() for a, b in zip(stored[1], saved[0])))
+    finally:
+        shutil.rmtree(tmp, ignore_errors=True)
+    res.paths = 1
+    res.stubs |= facade.USED_STUBS
+    return res
+
+
 def job(cfg):
+    if cfg.get("kind") == "reused_dict":
+        return job_reused_dict(cfg)
     return job_phasefield(cfg) if cfg.get("kind") == "phasefield" else job_seq(cfg)
 
 
@@ -587,6 +665,8 @@ def main():
     tier = harness.tier()
     cfgs = configs(tier)
     cfgs += [{"kind": "phasefield", "resetAll": True}, {"kind": "phasefield", "resetAll": False}]
+    for sim_ in ("weakforms", "elastic", "thermal"):
+        cfgs += [{"kind": "reused_dict", "sim": sim_}, {"kind": "reused_dict", "sim": sim_, "disk": True}]
     results = harness.run_jobs(job, cfgs)
     harness.finish(
         PID, results, t0=t0,
